@@ -1,6 +1,7 @@
 import NxProofs.RmcClient
 import NxProofs.RmcClientX
 import NxProofs.RmcClientMulti
+import NxProofs.RmcClientAbort
 /-!
 # C10 — each remote call gets its own response, whatever the interleaving
 
@@ -305,7 +306,56 @@ theorem close_wakes_all_of_that_connection (ks : List Nat) (ops : List MOp) (c :
   rw [hx]
   exact close_wakes_all_with_servers ks[c] (opsOf c ops) hd closeOp hclose (opsOf c later)
 
+/-! ## callers that end while suspended: `await self.client.send(...)` raises, or the task is cancelled inside `send`
+    (back pressure, the transport's send lock) or while waiting for its response (`NxModel/Nex/RmcClientAbort.lean`).
+    `request()` has no handler around either await: the frame is discarded, the object is not touched (`abort t`). -/
+
+/-- the abandoned call leaves the id counter, both maps, `closed`, the set events, the servers / hooks / handler in progress
+    and the frame of every other suspended call exactly as they were -/
+theorem abort_touches_only_its_frame (x : XState) (t : Nat) :
+    (astep x (.abort t)).1.core.nextId = x.core.nextId ∧ (astep x (.abort t)).1.core.nextTask = x.core.nextTask ∧
+    (astep x (.abort t)).1.core.requests = x.core.requests ∧ (astep x (.abort t)).1.core.responses = x.core.responses ∧
+    (astep x (.abort t)).1.core.closed = x.core.closed ∧ (astep x (.abort t)).1.core.fired = x.core.fired ∧
+    (astep x (.abort t)).1.servers = x.servers ∧ (astep x (.abort t)).1.pending = x.pending ∧
+    (astep x (.abort t)).1.status = x.status ∧ (astep x (.abort t)).1.handling = x.handling ∧
+    ∀ t', t' ≠ t → dlookup t' (astep x (.abort t)).1.core.frames = dlookup t' x.core.frames :=
+  abort_frame_only x t
+
+/-- every other suspended call (B, C: registered before or after the failing one) completes exactly as it would have:
+    with the response stored under its id, or "closed" -/
+theorem abort_affects_no_other_caller (x : XState) (t t' : Nat) (h : t' ≠ t) :
+    (xstep (astep x (.abort t)).1 (.core (.wake t'))).2 = (xstep x (.core (.wake t'))).2 :=
+  abort_other_wake x t t' h
+
+/-- the request messages of a run — which task sent which call id — are those of the same run with the failures /
+    cancellations left out: calls made after a failure (D, E) take the ids they would have taken anyway -/
+theorem aborts_do_not_change_ids (x : XState) (ops : List AOp) :
+    sentOf (arun x ops).2 = sentOf (arun x (dropAborts ops)).2 :=
+  aborts_keep_sent x ops
+
+/-- all request messages of a run in which any callers fail or are cancelled at any moments carry pairwise distinct call
+    ids below 2^32 − 1 requests: a later call never takes the id of an outstanding call, nor the id of an abandoned one
+    (whose request may have reached the peer) -/
+theorem request_ids_distinct_with_aborts (k : Nat) (ops : List AOp) (h : nCalls (coreOps (xopsOf ops)) < 4294967295)
+    (t t' id : Nat) (h1 : (t, id) ∈ sentOf (arun (xinit 1 k) ops).2) (h2 : (t', id) ∈ sentOf (arun (xinit 1 k) ops).2) :
+    t = t' :=
+  sent_ids_distinct_with_aborts k ops h t t' id h1 h2
+
 /-! non-vacuity -/
+-- A (task 0) fails inside send while B, C (tasks 1, 2) are outstanding; D (task 3) is called afterwards; the peer answers
+-- C, then the abandoned request of A (stored, nobody reads it), then D and B
+example : (arun (xinit 1 0) [.x (.core (.call false)), .x (.core (.call false)), .x (.core (.call false)), .abort 0, .x (.core (.call false)),
+    .x (.core (.recvResponse { mode := 1, protocol := 10, method := some 1, callId := 3, error := -1, body := [3] })),
+    .x (.core (.recvResponse { mode := 1, protocol := 10, method := some 1, callId := 1, error := -1, body := [1] })),
+    .x (.core (.recvResponse { mode := 1, protocol := 10, method := some 1, callId := 4, error := -1, body := [4] })),
+    .x (.core (.recvResponse { mode := 1, protocol := 10, method := some 1, callId := 2, error := -1, body := [2] })),
+    .x (.core (.wake 2)), .x (.core (.wake 3)), .x (.core (.wake 1)), .x (.core (.wake 0)), .abort 0]).2
+    = [.x (.core (.sent 0 1)), .x (.core (.sent 1 2)), .x (.core (.sent 2 3)), .aborted 0, .x (.core (.sent 3 4)),
+       .x (.core (.set 2)), .x (.core (.set 0)), .x (.core (.set 3)), .x (.core (.set 1)),
+       .x (.core (.done 2 (.body [3]))), .x (.core (.done 3 (.body [4]))), .x (.core (.done 1 (.body [2]))),
+       .x (.core (.noSuchTask 0)), .noSuchCall 0] := by decide
+example : nCalls (coreOps (xopsOf [.x (.core (.call false)), .abort 0, .x (.core (.call false))])) < 4294967295 := by decide
+example : sentOf (arun (xinit 1 0) [.x (.core (.call false)), .abort 0, .x (.core (.call false))]).2 = [(0, 1), (1, 2)] := by decide
 example : (xrun (xinit 1 1) [.core (.call false), .core (.call false), .peerRequest ⟨80, 7, 1⟩, .handlerEnd true,
     .peerRequest ⟨10, 7, 2⟩, .core (.recvResponse { mode := 1, protocol := 10, method := some 1, callId := 2, error := -1, body := [4] }),
     .core (.recvResponse { mode := 1, protocol := 10, method := some 1, callId := 1, error := -1, body := [5] }),
